@@ -1,6 +1,10 @@
 package proto
 
-import "github.com/go-faster/errors"
+import (
+	"strings"
+
+	"github.com/go-faster/errors"
+)
 
 // ColTuple is Tuple column.
 //
@@ -107,11 +111,24 @@ func (c ColTuple) Prepare() error {
 }
 
 func (c ColTuple) Infer(t ColumnType) error {
-	for _, v := range c {
-		if s, ok := v.(Inferable); ok {
-			if err := s.Infer(t); err != nil {
-				return errors.Wrap(err, "infer")
-			}
+	// Every element infers from its own type, not from the type of the
+	// whole tuple: Tuple(T1, name2 T2, ...).
+	elems := t.Elem().splitElems()
+	if len(elems) != len(c) {
+		return errors.Errorf("tuple of %d elements can't infer from %q", len(c), t)
+	}
+	for i, v := range c {
+		s, ok := v.(Inferable)
+		if !ok {
+			continue
+		}
+		elem := elems[i]
+		if named, ok := v.(interface{ ColumnName() string }); ok {
+			// Element of named tuple: "name Type".
+			elem = ColumnType(strings.TrimSpace(strings.TrimPrefix(string(elem), named.ColumnName()+" ")))
+		}
+		if err := s.Infer(elem); err != nil {
+			return errors.Wrapf(err, "infer [%d]", i)
 		}
 	}
 	return nil
